@@ -33,14 +33,17 @@ NoResidue(o) == /\ Fld(o, "ctrl", 0) = 0 /\ Fld(o, "lvl", 0) = 0
                 /\ ~Fld(o, "brk", FALSE) /\ ~Fld(o, "cont", FALSE) /\ ~Fld(o, "ret", FALSE)
                 /\ Fld(o, "undo", 0) = 0 /\ ~Fld(o, "parsing", FALSE)
 
+\* observed value o against ideal value v (a wildcard null matches any null)
+VEq(o, v) == IF v.t = "null" /\ v.ty.m = "any" THEN o.t = "null" ELSE o = v
+
 (* ------------------------- comparing a dump --------------------------- *)
 ObsVar(o, n) == LET idx == {j \in DOMAIN o.vars : o.vars[j].n = n} IN
                 IF idx = {} THEN [n |-> "", val |-> [t |-> "absent"], safe |-> FALSE, lock |-> FALSE]
                 ELSE o.vars[CHOOSE j \in idx : TRUE]
 IsSafeName(n) == n \in {"$S", "$T", "$U", "$ARG"}
 DumpWhy(o, S) ==
-  IF \E n \in DOMAIN S.vars : ObsVar(o, n).val # S.vars[n]
-    THEN LET n == CHOOSE n \in DOMAIN S.vars : ObsVar(o, n).val # S.vars[n] IN
+  IF \E n \in DOMAIN S.vars : ~VEq(ObsVar(o, n).val, S.vars[n])
+    THEN LET n == CHOOSE n \in DOMAIN S.vars : ~VEq(ObsVar(o, n).val, S.vars[n]) IN
          "variable " \o n \o " differs from the specification; expected: " \o ToJson(S.vars[n])
   ELSE IF \E j \in DOMAIN o.vars : o.vars[j].n \notin DOMAIN S.vars /\ o.vars[j].val.t # "null"
     THEN "a variable the program never assigned holds a value"
@@ -48,7 +51,8 @@ DumpWhy(o, S) ==
     THEN "a variable is left read-only"
   ELSE IF \E j \in DOMAIN o.vars : o.vars[j].safe # IsSafeName(o.vars[j].n)
     THEN "a type constraint is left on (or missing from) a variable"
-  ELSE IF \E j \in DOMAIN o.vars : o.vars[j].n \in DOMAIN S.vars /\ o.vars[j].sty # TypeOf(S.vars[o.vars[j].n])
+  ELSE IF \E j \in DOMAIN o.vars : o.vars[j].n \in DOMAIN S.vars /\ TypeOf(S.vars[o.vars[j].n]).m # "any"
+                                   /\ (IF IsNull(S.vars[o.vars[j].n]) THEN [o.vars[j].sty EXCEPT !.d = <<>>] ELSE o.vars[j].sty) # TypeOf(S.vars[o.vars[j].n])
     THEN "symbol type differs from the type of the stored value"
   ELSE IF \E f \in DOMAIN S.funcs : ~\E j \in DOMAIN o.funcs :
              o.funcs[j].n = S.funcs[f].n /\ o.funcs[j].ar = Len(S.funcs[f].ps) /\ o.funcs[j].body
@@ -70,7 +74,7 @@ RunWhy(o, S) ==      \* S = ideal state after the run
        ELSE ""
   ELSE IF o.oc # "ok" THEN "the specification completes, the run reported " \o o.oc \o " " \o Fld(o, "name", "")
   ELSE IF o.out # S.out THEN "output differs; expected: " \o S.out
-  ELSE IF Has(o, "rv") /\ o.rv # ExpectRv(S) THEN "returned value differs"
+  ELSE IF Has(o, "rv") /\ ~VEq(o.rv, ExpectRv(S)) THEN "returned value differs"
   ELSE IF ~NoResidue(o) THEN "control state left behind"
   ELSE ""
 
